@@ -15,18 +15,6 @@ open Dalek.IR Dalek.Spec Dalek.Model Dalek.Proofs Dalek.Proofs.Ris
 open Dalek.Bridge (Ed Rep Canon)
 open Dalek.FieldFacts (d)
 
-/-- the radicand `v u2²` (`u1 = 1 − s²`, `u2 = 1 + s²`, `v = −d u1² − u2²`) whose inverse square root DECODE takes -/
-noncomputable def radicand (s : Fp) : Fp := decV s * (1 + s ^ 2) ^ 2
-
-theorem wasSquare_iff (s : Nat) :
-    (sqrtRatioM1 1 (sDecW s)).1 = true ↔ (radicand (s : Fp) ≠ 0 ∧ IsSquare (radicand (s : Fp))) := by
-  rw [Bridge.sqrtRatioM1_ok_iff, cast_sDecW, Nat.cast_one, one_div, isSquare_inv]
-  constructor
-  · rintro (h | h)
-    · exact absurd h one_ne_zero
-    · exact h
-  · exact Or.inr
-
 /-- **The five rejection conditions, exactly.**  DECODE accepts `b` iff `b` has 32 bytes and, for the
 little-endian integer `s` of all 256 bits,
 1. `s < p` (canonical; in particular bit 255 is clear),
@@ -56,16 +44,6 @@ theorem decode_accept_iff (b : List UInt8) :
   simp only [h1', h2', Bool.false_or]
   cases isNeg s <;> cases (sqrtRatioM1 1 (sDecW s)).1 <;> cases isNeg (fmul (sDecX s) (sDecY s)) <;>
     by_cases h5 : sDecY s = 0 <;> simp [h1, h2, h5]
-
-/-- the value DECODE returns when it accepts -/
-theorem decode_eq_some {b : List UInt8} {p : Pt} (h : Ristretto.decode b = some p) :
-    p = ⟨sDecX (leToNat b), sDecY (leToNat b)⟩ := by
-  rw [decode_unfold] at h
-  split at h
-  · cases h
-  split at h
-  · cases h
-  · exact (Option.some.inj h).symm
 
 /-- **Decoded points are valid**: if DECODE accepts, the result is a canonical point ON THE CURVE
 (it denotes an element `Q` of the group `Ed` of the Ed25519 curve), with `x ≥ 0`, `t = x y ≥ 0` and `y ≠ 0`. -/
